@@ -1,37 +1,47 @@
 """
 C11 — packing a directory is independent of the host's enumeration order.
 
-Proof: Sqfs/Props/C11.lean over the model Sqfs/Model/FsTree.lean (native → recursive → hard-link filter →
-dir_tree_iterator → scan_directory → fstree_add_generic → fstree_post_process).
+Proof: Sqfs/Props/C11.lean over the model Sqfs/Model/FsTree.lean (native iterator with read_names/compare_names/qsort →
+recursive iterator → hard-link filter → dir_tree_iterator → scan_directory → fstree_add_generic → fstree_post_process →
+fstree_sort_files → order of pack_files).
 
 Tie (every run, real code from the working tree):
-  1. harness level — harness/h_c11.c links the real scan path (ASan+UBSan) with harness/shim_readdir.c wrapped
-     around readdir; generated directory trees (nested, many entries, files/symlinks/fifos/sockets/devices,
-     multiply-linked files within and across directories, non-ASCII names) are scanned under >= 8 readdir orders;
-     the resulting tree + inode numbers + file list is compared with the model run on the logged orders, both for
-     `--pack-dir` and for pack files with `glob` lines (prefix, file prefix, -type/-name/-path, -xdev, -keeptime,
-     -nonrecursive, -nohardlinks, pre-existing entries);
-  2. tool level — un-sanitized gensquashfs under LD_PRELOAD=shim_readdir.so: sha256 of the image must be constant
-     across orders; the image is read back with the real reader (harness/h_c11_dump.c) and its tree, inode
-     numbers and data placement order are compared with the model.
+  0. function level — harness/h_c11_unit.c compiles the real dir_unix.c into itself: compare_names on name pairs that share
+     up to 254 bytes; the real native iterator on directories of 0..4097 (thorough 8193) entries served by the readdir shim in
+     several orders; insert_sorted; fstree_sort_files; fstree_add_generic/fstree_post_process called directly (nesting limit,
+     ERANGE/EINVAL, hard-link sets in several queue orders); a directory chain around SQFS_MAX_DIR_NESTING;
+  1. harness level — harness/h_c11.c links the real scan path (ASan+UBSan) with harness/shim_readdir.c wrapped around readdir;
+     generated directory trees (nested, files/symlinks/fifos/sockets/devices, multiply-linked files within and across
+     directories, non-ASCII names; big directories of 129..600 (2000) entries whose names share long prefixes) are scanned under
+     >= 8 readdir orders; tree + inode numbers + file list are compared with the model run on the logged orders, for `--pack-dir`
+     and for pack files with `glob` lines;
+  2. tool level — gensquashfs (plain under LD_PRELOAD=shim_readdir.so, and an ASan build with the shim linked in), incl. -S sort
+     files and --xattr-file: sha256 of the image must be constant across orders; the image is read back with the real reader
+     (harness/h_c11_dump.c) and its tree, inode numbers and data placement order are compared with the model.
 
-Two models are consulted: `sorted=1` (native iterator sorts each directory: the repaired tree,
-fixes/C11-sorted-readdir.patch) is the main model; `sorted=0` (readdir order passed through: the code as pinned)
-is the witness model of defect D16.  An order dependence that the witness model predicts exactly and that
-involves a multiply-linked file with hard-link detection on is the known finding `D16:hardlink-primary`.
+The main model (`sorted=1`) is the code in /repo.  `sorted=0` (read_names without its qsort call: what a revert of /repo 7ff9210
+would be) is consulted only to name a disagreement: an order dependence it predicts exactly and that involves a multiply-linked
+file with hard-link detection on is reported as `D16:hardlink-primary` (recorded as fixed, hence a violation).
+
+Fail-closed: every helper must answer one line per operation, never `bad-op`; the shim's log must show that it was in control;
+every part has a floor on what it evaluated (CheckFailure otherwise).
 """
-import json, os, shutil, socket, stat, subprocess, atexit
+import json, os, shutil, socket, stat, subprocess, atexit, time
 import vlib
 
 LEVEL = "proof"
 MODULE = "Sqfs.Props.C11"
-REQUIRED = ["Sqfs.C11.insertSorted_perm", "Sqfs.C11.insertSorted_sorted", "Sqfs.C11.scan_perm_invariant",
-            "Sqfs.C11.scan_perm_invariant_glob", "Sqfs.C11.scan_perm_invariant_partial",
-            "Sqfs.C11.scan_perm_invariant_glob_partial", "Sqfs.C11.repair_conservative", "Sqfs.C11.numbering_deterministic",
-            "Sqfs.C11.scan_tree_sorted", "Sqfs.C11.glob_tree_sorted"]
-WITNESS_MODULE = "Sqfs.Witness.C11"
+REQUIRED = ["Sqfs.C11.insertSorted_perm", "Sqfs.C11.insertSorted_sorted", "Sqfs.C11.compare_names_total_order",
+            "Sqfs.C11.read_names_sorted", "Sqfs.C11.read_names_perm", "Sqfs.C11.qsort_any_conforming",
+            "Sqfs.C11.scan_perm_invariant", "Sqfs.C11.scan_perm_invariant_glob", "Sqfs.C11.pack_order_invariant", "Sqfs.C11.sort_files_perm_sorted_stable",
+            "Sqfs.C11.numbering_deterministic", "Sqfs.C11.pack_dir_links_order_free", "Sqfs.C11.scan_tree_sorted", "Sqfs.C11.glob_tree_sorted"]
+# not obligations of the property: the witness for the iterator without its qsort call (a revert of /repo 7ff9210), and the
+# frozen record of the theorems about the code before that commit; both must keep building with allowed axioms only
+RECORD_MODULES = ["Sqfs.Witness.C11", "Sqfs.Proofs.C11Pinned.Theorems"]
 WITNESS_THEOREMS = ["Sqfs.Witness.C11.scan_order_dependent", "Sqfs.Witness.C11.nohardlinks_agree", "Sqfs.Witness.C11.repaired_agree",
-                    "Sqfs.Witness.C11.nofile_filter_order_dependent", "Sqfs.Witness.C11.nofile_repaired_agree"]
+                    "Sqfs.Witness.C11.nofile_filter_order_dependent", "Sqfs.Witness.C11.nofile_repaired_agree",
+                    "Sqfs.C11Pinned.scan_perm_invariant_partial", "Sqfs.C11Pinned.scan_perm_invariant_glob_partial",
+                    "Sqfs.C11Pinned.repair_conservative"]
 D16_KEY = "D16:hardlink-primary"
 
 F_NO_SOCK, F_NO_SLINK, F_NO_FILE, F_NO_BLK, F_NO_DIR, F_NO_CHR, F_NO_FIFO = 1, 2, 4, 8, 16, 32, 64
@@ -42,6 +52,32 @@ DEFAULT_FLAGS = F_KEEP_UID | F_KEEP_GID | F_KEEP_MODE          # options.c: proc
 
 def tok(b):
     return b.hex() if b else "-"
+
+
+TIMES = {"model": 0.0, "harness": 0.0, "tool": 0.0, "trees": 0.0}
+
+
+def szip(*streams):
+    """zip() that refuses streams of different length (a short helper output must never shorten a comparison)"""
+    n = len(streams[0])
+    if any(len(x) != n for x in streams):
+        raise vlib.CheckFailure("internal: streams of unequal length %s" % [len(x) for x in streams])
+    return zip(*streams)
+
+
+def model(ctx, lines):
+    """run the model driver on `lines`; exactly one answer per line, and never `bad-op`"""
+    if not lines:
+        raise vlib.CheckFailure("internal: empty script for the model driver")
+    t0 = time.time()
+    out = ctx.driver(["c11"], "\n".join(lines) + "\n")
+    TIMES["model"] += time.time() - t0
+    if len(out) != len(lines):
+        raise vlib.CheckFailure("model driver answered %d lines for %d operations" % (len(out), len(lines)))
+    for l, o in zip(lines, out):
+        if o.startswith("bad-op"):
+            raise vlib.CheckFailure("model driver rejected an operation the check generated: %s" % l[:300])
+    return out
 
 
 def otok(b):
@@ -364,6 +400,8 @@ class Case:
                 "glob": self.glob and {k: hx(v) for k, v in self.glob.items()},
                 "pre": [[hx(x) for x in e] for e in self.pre],
                 "packfile": [l.decode("latin1") for l in (self.packfile_lines or [])],
+                "sort_text": getattr(self, "sort_text", None), "xattr_text": getattr(self, "xattr_text", None),
+                "sort_rules": [[a, b, c, d, "hex:" + e.hex()] for (a, b, c, d, e) in getattr(self, "sort_rules", None) or []] or None,
                 "tree_spec": tree_spec(self.tree.root)}
 
     @staticmethod
@@ -373,6 +411,11 @@ class Case:
         pre = [tuple(un(x) for x in e) for e in desc.get("pre", [])]
         lines = [l.encode("latin1") for l in desc.get("packfile", [])]
         c = Case(desc["kind"], tree, desc["defaults"], desc["flags"], desc["defs"], packfile_lines=lines or None, glob=glob, pre=pre)
+        if desc.get("sort_rules"):
+            c.sort_rules = [(a, b, c_, d, un(e)) for (a, b, c_, d, e) in desc["sort_rules"]]
+            c.sort_text = desc.get("sort_text")
+        if desc.get("xattr_text"):
+            c.xattr_text = desc["xattr_text"]
         if desc["kind"] == "packfile":
             c.packfile_path = (str(ctx.scratch / ("replay_pack%d.txt" % idx))).encode()
             with open(c.packfile_path, "wb") as f:
@@ -549,29 +592,89 @@ def gen_glob_case(ctx, tree, idx, multi=False, tool=False, nofile=None):
 
 
 def orders_for(ctx, n):
-    return ["sorted", "reverse"] + ["seed:%d" % ctx.rng.randint(1, 10 ** 9) for _ in range(n - 2)]
+    kinds = ["seed", "seed", "seed", "swaps", "rot", "seed"]
+    out = ["sorted", "reverse"] + ["%s:%d" % (kinds[i % len(kinds)], ctx.rng.randint(1, 10 ** 9)) for i in range(n - 2)]
+    if n >= 6:
+        out[-1] = "halves"
+    return out
 
 
 # ------------------------------------------------------------------------------------------------ evaluation of one case
+SHIM = {"dirs_logged": 0, "dirs_permuted": 0, "dirs_not_read": 0, "root_not_read": 0, "cases_all_read_required": 0}
+
+
+def shim_account(case_root, lo, order, ok):
+    """the readdir shim must really have been in control: the directory being scanned is in its log, and what it logged
+    is the permutation that was asked for (for `sorted`: sorted; otherwise counted when it differs from sorted)"""
+    st = os.lstat(case_root)
+    names = lo.get((st.st_dev, st.st_ino))
+    if names is None:
+        if ok:
+            SHIM["root_not_read"] += 1
+        return
+    for k, v in lo.items():
+        SHIM["dirs_logged"] += 1
+        if v != sorted(v):
+            SHIM["dirs_permuted"] += 1
+            if order == "sorted":
+                raise vlib.CheckFailure("readdir shim: order `sorted` requested but %r was served" % [x[:20] for x in v[:6]])
+        if b"." not in v or b".." not in v:
+            raise vlib.CheckFailure("readdir shim: logged enumeration lacks . or ..")
+
+
+def scan_root(case):
+    if case.kind == "packdir" or not case.glob.get("subdir"):
+        return case.tree.root
+    return case.tree.root + b"/" + case.glob["subdir"]
+
+
+def plain_case(case):
+    """a scan that must read every directory of the tree (nothing filtered, nothing skipped)"""
+    return case.kind == "packdir" and not case.tree.mounts and (case.flags & ~(F_KEEP_TIME | F_NO_HL)) == DEFAULT_FLAGS
+
+
 def run_case(ctx, harness, case, orders):
     """returns list of (order, impl_dump, log_orders, model_sorted, model_unsorted, aborted)"""
     text = "\n".join(harness_line(case, o, ctx) for o in orders) + "\n"
-    r = vlib.sh([str(harness)], input=text, env=ctx.san_env(), timeout=600)
+    t0 = time.time()
+    try:
+        r = vlib.sh([str(harness)], input=text, env=ctx.san_env(), timeout=900)
+    except subprocess.TimeoutExpired:
+        return None, ("timeout", "real scan path did not finish within 900 s", 0)
+    TIMES["harness"] += time.time() - t0
     out = r.stdout.splitlines()
     res = []
     if r.returncode != 0 or len(out) != len(orders):
         return None, (r.returncode, r.stderr[-3000:], len(out))
-    mlines, stats = [], {}
-    for o, line in zip(orders, out):
+    mlines = []
+    for o, line in szip(orders, out):
+        if line.startswith("bad-op") or " @@ " not in line:
+            raise vlib.CheckFailure("harness h_c11 rejected an operation the check generated: %s -> %s" % (harness_line(case, o, ctx)[:200], line[:100]))
         dump, _, log = line.partition(" @@ ")
         lo = parse_log(log)
+        stats = {}
         mlines.append(model_line(case, 1, lo, stats))
-        mlines.append(model_line(case, 0, lo, stats))
+        shim_account(scan_root(case), lo, o, dump.startswith("ok"))
+        SHIM["dirs_not_read"] += stats.get("dirs_not_read", 0)
+        if plain_case(case) and dump.startswith("ok"):
+            SHIM["cases_all_read_required"] += 1
+            if stats.get("dirs_not_read", 0):
+                raise vlib.CheckFailure("readdir shim not in effect: %d directories of %s were scanned without going through "
+                                        "readdir (order %s)" % (stats["dirs_not_read"], case.tree.root, o))
         res.append([o, dump, lo])
-    m = ctx.driver(["c11"], "\n".join(mlines) + "\n")
+    m = model(ctx, mlines)
     for i, x in enumerate(res):
-        x += [m[2 * i], m[2 * i + 1]]
+        x += [m[i], None]
     return res, None
+
+
+def need_unsorted(ctx, case, res):
+    """the model of the iterator WITHOUT its qsort call (what a revert of /repo 7ff9210 would be) is only consulted to name a
+    disagreement, so it is only run when there is one"""
+    if res and res[0][4] is None:
+        m = model(ctx, [model_line(case, 0, x[2], {}) for x in res])
+        for x, mo in szip(res, m):
+            x[4] = mo
 
 
 def child_lists(dump):
@@ -597,9 +700,11 @@ def monitor_sorted(ctx, case, res, counters):
         lines += child_lists(x[1])
     if not lines:
         return
-    out = ctx.driver(["c11"], "\n".join(lines) + "\n")
+    out = model(ctx, lines)
     counters["monitor_lists"] = counters.get("monitor_lists", 0) + len(lines)
-    bad = [l for l, o in zip(lines, out) if o != "1"]
+    if any(o not in ("0", "1") for o in out):
+        raise vlib.CheckFailure("mon-sorted answered something other than 0/1")
+    bad = [l for l, o in szip(lines, out) if o != "1"]
     if bad and counters.get("monitor_bad", 0) < 3:
         counters["monitor_bad"] = counters.get("monitor_bad", 0) + 1
         ctx.violation("unsorted:%s" % vlib.sha(bad[0])[:10], "the real scan path built a directory whose children are not strictly sorted by strcmp: %s" % bad[0][:300],
@@ -616,13 +721,15 @@ def classify(ctx, case, res, facts, tag, counters):
     hl_on = not (case.flags & F_NO_HL) if case.kind == "packdir" else not (case.glob["flags"] & F_NO_HL)
     impl = [x[1] for x in res]
     spec_ok = all(d == impl[0] for d in impl)                 # the property, on the implementation
-    main_ok = all(x[1] == x[3] for x in res)                  # implementation = repaired model
-    wit_ok = all(x[1] == x[4] for x in res)                   # implementation = model of the pinned code
+    main_ok = all(x[1] == x[3] for x in res)                  # implementation = model of the code in /repo
     counters["evaluations"] += len(res)
     if main_ok and spec_ok:
         return
+    need_unsorted(ctx, case, res)
+    wit_ok = all(x[1] == x[4] for x in res)                   # implementation = model of the iterator without its qsort
     replay = {"case": case.describe(), "tree_root_listing": listing(case.tree.root), "orders": [x[0] for x in res],
-              "impl": impl[:4], "model_sorted": [x[3] for x in res][:4], "model_unsorted": [x[4] for x in res][:4], "level": tag}
+              "impl": [d[:6000] for d in impl[:4]], "model_sorted": [x[3][:6000] for x in res][:4],
+              "model_unsorted": [x[4][:6000] for x in res][:4], "level": tag}
     if wit_ok and multi and hl_on and (not spec_ok or not main_ok):
         # the behaviour the witness theorem (Sqfs.Witness.C11) describes: which name of a link group becomes the
         # real file depends on the enumeration
@@ -659,16 +766,16 @@ def listing(root):
 
 
 def witness_gate(ctx):
-    """the negation for the pinned code (Sqfs/Witness/C11.lean) is part of the record: it must build and use no
-    disallowed axiom; it is not counted as an obligation of the property"""
+    """the witness (Sqfs/Witness/C11.lean) and the frozen theorems about the pre-7ff9210 code (Sqfs/Proofs/C11Pinned/) are
+    part of the record: they must build and use no disallowed axiom; they are not obligations of the property"""
     import re
-    okb, log = ctx.lean_build([WITNESS_MODULE])
+    okb, log = ctx.lean_build(RECORD_MODULES)
     problems = []
     if not okb:
-        problems.append("lake build %s failed: %s" % (WITNESS_MODULE, log[-1500:]))
+        problems.append("lake build %s failed: %s" % (RECORD_MODULES, log[-1500:]))
     else:
         af = ctx.scratch / "Audit_C11_witness.lean"
-        af.write_text("import %s\n" % WITNESS_MODULE + "".join("#print axioms %s\n" % n for n in WITNESS_THEOREMS))
+        af.write_text("".join("import %s\n" % m for m in RECORD_MODULES) + "".join("#print axioms %s\n" % n for n in WITNESS_THEOREMS))
         r = vlib.sh(["lake", "env", "lean", str(af)], cwd=str(vlib.LEAN))
         text = " ".join((r.stdout + r.stderr).split())
         if r.returncode != 0:
@@ -681,16 +788,17 @@ def witness_gate(ctx):
             bad = [a for a in ax if a and a not in vlib.ALLOWED_AXIOMS]
             if bad:
                 problems.append("%s depends on %s" % (n, bad))
-    ctx.cov["witness"] = {"module": WITNESS_MODULE, "theorems": WITNESS_THEOREMS, "ok": not problems}
+    ctx.cov["record_not_claimed"] = {"modules": RECORD_MODULES, "theorems": WITNESS_THEOREMS, "ok": not problems}
     if problems:
-        ctx.violation("proof:C11-witness", "witness of D16 (Sqfs/Witness/C11.lean) no longer checks: " + " | ".join(problems)[:1200],
+        ctx.violation("proof:C11-witness", "witness / frozen record of C11 no longer checks: " + " | ".join(problems)[:1200],
                       {"broken": problems}, found_input=False)
 
 
 def build_harness(ctx):
     lib = ctx.build_lib("san")
     gs = str(vlib.REPO / "bin/gensquashfs/src")
-    return ctx.cc("h_c11", ["h_c11.c", "shim_readdir.c", "bin/gensquashfs/src/glob.c", "bin/gensquashfs/src/fstree_from_file.c"],
+    return ctx.cc("h_c11", ["h_c11.c", "shim_readdir.c", "bin/gensquashfs/src/glob.c", "bin/gensquashfs/src/fstree_from_file.c",
+                            "bin/gensquashfs/src/sort_by_file.c"],
                   flags=["-DSHIM_WRAP", "-I" + gs],
                   libs=[str(lib)] + vlib.CODEC_LIBS + ["-Wl,--wrap=readdir,--wrap=readdir64,--wrap=closedir"])
 
@@ -750,13 +858,31 @@ def placement(order, sizes, place):
     return "ok"
 
 
-def model_canon(dump, sizes, place):
+def rule_tokens(rules):
+    out = [str(len(rules))]
+    for (prio, flags, do_glob, path_glob, pat) in rules:
+        out += [str(prio), str(flags), "1" if do_glob else "0", "1" if path_glob else "0", tok(pat)]
+    return out
+
+
+def model_sortfiles(ctx, rules, files_hex):
+    """`fstree_sort_files` of the model on a file list (hex paths): [(hex path, flags)]"""
+    line = "sortfiles " + " ".join(rule_tokens(rules) + [str(len(files_hex))] + files_hex)
+    out = model(ctx, [line])[0].split()
+    if not out or out[0] != "ok" or len(out) != len(files_hex) + 1:
+        raise vlib.CheckFailure("model sortfiles: unexpected answer %s" % " ".join(out)[:200])
+    return [(x.rsplit(":", 1)[0], int(x.rsplit(":", 1)[1])) for x in out[1:]]
+
+
+def model_canon(ctx, dump, sizes, place, rules=None):
     """what the image must contain according to a model dump; `sizes`/`place`: inode number -> file size / data location
-    (from the image)"""
+    (from the image); `rules`: the parsed sort file (gensquashfs -S), applied to the model's file list"""
     pm = parse_model_dump(dump)
     if pm is None:
         return "err"
     nodes, files = pm
+    if rules is not None and files:
+        files = [f for f, _ in model_sortfiles(ctx, rules, files)]
     by_path = {n["path"]: n for n in nodes}
     out = []
     for n in nodes:
@@ -827,14 +953,29 @@ def run_tool_case(ctx, tools, case, cmdline, orders, use_san):
             canon, sizes, place = image_canon(d.stdout)
         else:
             sha, canon, sizes, place = "failed", "err", {}, {}
+        stats = {}
         mlines.append(model_line(case, 1, lo, stats))
-        mlines.append(model_line(case, 0, lo, stats))
+        shim_account(scan_root(case), lo, o, sha != "failed")
+        SHIM["dirs_not_read"] += stats.get("dirs_not_read", 0)
+        if plain_case(case) and sha != "failed":
+            SHIM["cases_all_read_required"] += 1
+            if stats.get("dirs_not_read", 0):
+                raise vlib.CheckFailure("readdir shim not in effect under gensquashfs: %d directories of %s were scanned without "
+                                        "going through readdir (order %s)" % (stats["dirs_not_read"], case.tree.root, o))
         res.append([o, canon, lo, None, None, sha, sizes, place])
-    m = ctx.driver(["c11"], "\n".join(mlines) + "\n")
+    m = model(ctx, mlines)
+    rules = getattr(case, "sort_rules", None)
     for i, x in enumerate(res):
-        x[3] = model_canon(m[2 * i], x[6], x[7])
-        x[4] = model_canon(m[2 * i + 1], x[6], x[7])
+        x[3] = model_canon(ctx, m[i], x[6], x[7], rules)
     return res, None
+
+
+def need_unsorted_tool(ctx, case, res):
+    if res and res[0][4] is None:
+        m = model(ctx, [model_line(case, 0, x[2], {}) for x in res])
+        rules = getattr(case, "sort_rules", None)
+        for x, mo in szip(res, m):
+            x[4] = model_canon(ctx, mo, x[6], x[7], rules)
 
 
 def classify_tool(ctx, case, cmdline, res, facts, counters):
@@ -843,11 +984,12 @@ def classify_tool(ctx, case, cmdline, res, facts, counters):
     shas = [x[5] for x in res]
     spec_ok = all(s == shas[0] for s in shas)                  # the property itself: one image whatever the order
     main_ok = all(x[1] == x[3] for x in res)
-    wit_ok = all(x[1] == x[4] for x in res)
     counters["evaluations"] += len(res)
     counters["tool_runs"] += len(res)
     if main_ok and spec_ok:
         return
+    need_unsorted_tool(ctx, case, res)
+    wit_ok = all(x[1] == x[4] for x in res)
     replay = {"case": case.describe(), "cmdline": cmdline, "tree_root_listing": listing(case.tree.root), "orders": [x[0] for x in res],
               "sha256": shas, "image": [x[1] for x in res][:3], "model_sorted": [x[3] for x in res][:3],
               "model_unsorted": [x[4] for x in res][:3], "level": "tool"}
@@ -874,6 +1016,57 @@ def classify_tool(ctx, case, cmdline, res, facts, counters):
     counters["other"] += 1
 
 
+def make_big_tree(ctx, idx, n, maxlen=255):
+    """one directory with n entries whose names share long prefixes, with hard-link groups inside it and across directories:
+    what it takes to see a native iterator that sorts only part of a directory, or compares only part of a name"""
+    r = ctx.rng
+    root = (str(ctx.scratch / ("big%d" % idx))).encode()
+    os.mkdir(root)
+    g = Gen(ctx, root, 0)
+    top = r.random() < 0.4
+    big = root if top else root + b"/" + r.choice([b"big", b"m", b"\xffdir"])
+    if not top:
+        os.mkdir(big)
+        g.dirs.append(big)
+    other = root + b"/" + r.choice([b"0ther", b"zz"])
+    os.mkdir(other)
+    g.dirs.append(other)
+    names = long_names(r, n, maxlen)
+    regs = []
+    for i, nm in enumerate(names):
+        p = big + b"/" + nm
+        k = r.random()
+        if k < 0.80 or not regs:
+            with open(p, "wb") as f:
+                f.write(b"%d:" % i + b"d" * r.choice([0, 0, 3, 40]))
+            regs.append(p)
+        elif k < 0.86:
+            os.symlink(r.choice([b"t", nm[:40], b"../x"]), p)
+        elif k < 0.90:
+            os.mkdir(p)
+            g.dirs.append(p)
+            with open(p + b"/inner", "wb") as f:
+                f.write(b"%d" % i)
+            g.files.append(p + b"/inner")
+            continue
+        else:
+            os.link(r.choice(regs), p)                    # second name inside the big directory
+        g.files.append(p)
+    # link groups whose members are far apart in strcmp order and in the served order, and one across directories
+    srt = sorted(regs)
+    for a, b in ((srt[0], b"\xff\xfflast"), (srt[-1], b"\x01first"), (srt[len(srt) // 2], b"mid\x80")):
+        if not os.path.lexists(big + b"/" + b):
+            os.link(a, big + b"/" + b)
+            g.files.append(big + b"/" + b)
+    lp = other + b"/" + r.choice([b"a", b"\xe4"])
+    os.link(srt[len(srt) // 3], lp)
+    g.files.append(lp)
+    for p in list(g.dirs[1:]) + [root]:
+        os.utime(p, ns=(10 ** 9, 10 ** 9))
+    g.count = n
+    return g
+
+
 def gen_tool_case(ctx, tree, idx, multi, nofile=None):
     """(case, command line without the output file)"""
     r = ctx.rng
@@ -892,13 +1085,54 @@ def gen_tool_case(ctx, tree, idx, multi, nofile=None):
             cmd += ["-u", "77"]; flags &= ~F_KEEP_UID; defs["uid"] = 77
         if r.random() < 0.15:
             cmd += ["-g", "88"]; flags &= ~F_KEEP_GID; defs["gid"] = 88
-        return Case("packdir", tree, {"uid": 0, "gid": 0, "mtime": mt, "mode": 0o755}, flags, defs), cmd
+        # mkfs.c main(): -u/-g also replace the default owner (root inode, implicit directories) — asked of the model
+        mu, mg = model(ctx, ["maindefaults 0 0 %d %d %d" % (flags, defs["uid"], defs["gid"])])[0].split()
+        c = Case("packdir", tree, {"uid": int(mu), "gid": int(mg), "mtime": mt, "mode": 0o755}, flags, defs)
+        add_sort_and_xattr(ctx, c, cmd, idx)
+        return c, cmd
     c = gen_glob_case(ctx, tree, 100000 + idx, multi, tool=True, nofile=nofile)
     d = c.d
     cmd = ["-q", "-f", "-b", str(BLK), "-j", str(r.choice([1, 4])), "-d", "uid=%d,gid=%d,mode=0%o,mtime=%d" % (d["uid"], d["gid"], d["mode"], d["mtime"]),
            "-D", tree.root.decode("utf-8", "surrogateescape"), "-F", c.packfile_path.decode()]
     c.flags = DEFAULT_FLAGS
+    add_sort_and_xattr(ctx, c, cmd, idx)
     return c, cmd
+
+
+TOOL_EXTRA = {"sortfile_cases": 0, "xattrfile_cases": 0}
+
+
+def add_sort_and_xattr(ctx, case, cmd, idx, force=False):
+    """gensquashfs -S <sort file> (the order of the file data then follows fstree_sort_files, modelled) and
+    --xattr-file (apply_xattrs walks the tree; not modelled, the image must still not depend on the readdir order)"""
+    r = ctx.rng
+    tree = case.tree
+    if force or r.random() < 0.35:
+        regs = [p[len(tree.root) + 1:] for p in tree.files if os.path.lexists(p) and stat.S_ISREG(os.lstat(p).st_mode)]
+        regs = [p for p in regs if not any(c in p for c in b"[]\\\"*?") and p == p.strip()]
+        _, rules, text = gen_sortfile(r, regs or [b"none"], safe_flags=True)
+        sf = ctx.scratch / ("tool_sort%d.txt" % idx)
+        sf.write_bytes(text)
+        cmd += [r.choice(["-S", "--sort-file"]), str(sf)]
+        case.sort_rules = rules
+        case.sort_text = text.decode("latin1")
+        TOOL_EXTRA["sortfile_cases"] += 1
+    if force or r.random() < 0.3:
+        lines = []
+        ents = [p[len(tree.root):] for p in (tree.files + tree.dirs[1:]) if os.path.lexists(p)]
+        ents = [p for p in ents if all(32 < c < 127 and c not in b"\\\"" for c in p)]
+        r.shuffle(ents)
+        for p in ents[:r.randint(1, 12)]:
+            lines.append(b"# file: " + p.lstrip(b"/"))
+            for k in range(r.randint(1, 3)):
+                lines.append(b"user.k%d=" % k + r.choice([b"\"value %d\"" % k, b"0x0102ff", b"0sQUJD"]))
+            lines.append(b"")
+        if lines:
+            xf = ctx.scratch / ("tool_xattr%d.txt" % idx)
+            xf.write_bytes(b"\n".join(lines) + b"\n")
+            cmd += [r.choice(["-A", "--xattr-file"]), str(xf)]
+            case.xattr_text = b"\n".join(lines).decode("latin1")
+            TOOL_EXTRA["xattrfile_cases"] += 1
 
 
 def witness_tree(ctx, idx):
@@ -916,6 +1150,526 @@ def witness_tree(ctx, idx):
     return g
 
 
+# ------------------------------------------------------------------------------------------------ adversarial names
+DIFF_POS = [1, 15, 16, 17, 31, 32, 63, 64, 127, 128, 254]
+NAME_MAX = 255
+BASE_ALPHA = b"abcdefghijklmnopqrstuvwxyzABCDEFGHIJKLMNOPQRSTUVWXYZ0123456789._-\xc3\xa4\xff\x80"
+DIFF_BYTES = [0x01, 0x20, 0x2d, 0x2e, 0x30, 0x41, 0x61, 0x7e, 0x7f, 0x80, 0x81, 0xc3, 0xfe, 0xff]
+
+
+def long_names(r, n, maxlen=NAME_MAX):
+    """n pairwise different names (<= maxlen bytes) made to defeat shortcuts in a name comparison: families that share a long
+    common prefix and first differ at byte DIFF_POS (around 16/32/64/128 and at the very end), bytes >= 0x80 against bytes
+    < 0x80 at the differing position (signed/unsigned char), names that are proper prefixes of one another"""
+    names = set()
+    bases = [bytes(r.choice(BASE_ALPHA) for _ in range(maxlen)) for _ in range(r.randint(1, 3))]
+    tries = 0
+    while len(names) < n and tries < 20 * n + 200:
+        tries += 1
+        base = r.choice(bases)
+        p = min(r.choice(DIFF_POS) if r.random() < 0.8 else r.randint(0, maxlen - 1), maxlen - 1)
+        k = r.random()
+        if k < 0.12:
+            nm = base[:p]
+        elif k < 0.24:
+            nm = base[:p + 1]
+        else:
+            tail_len = r.choice([0, 0, 1, 3, maxlen - p - 1, r.randint(0, maxlen - p - 1)])
+            tail = base[p + 1:p + 1 + tail_len] if r.random() < 0.7 else bytes(r.choice(b"xyz\xff\x01") for _ in range(tail_len))
+            nm = base[:p] + bytes([r.choice(DIFF_BYTES)]) + tail
+        if nm and nm not in (b".", b"..") and b"/" not in nm and b"\0" not in nm and len(nm) <= maxlen:
+            names.add(nm)
+    i = 0
+    while len(names) < n:                      # fill up: counters behind a 200 byte common prefix
+        names.add(bases[0][:200] + b"%06d" % i)
+        i += 1
+    lst = sorted(names)
+    r.shuffle(lst)
+    return lst[:n]
+
+
+UNIT_ORDERS = ["sorted", "reverse", "halves"]
+
+
+def unit_orders(r, k):
+    o = ["sorted", "reverse"] + ["%s:%d" % (kind, r.randint(1, 10 ** 9)) for kind in ("seed", "swaps", "rot", "seed")] + ["halves"]
+    head, rest = o[:2], o[2:]
+    r.shuffle(rest)
+    return (head + rest)[:k]
+
+
+def build_unit_harness(ctx):
+    return ctx.cc("h_c11_unit", ["h_c11_unit.c", "shim_readdir.c"], flags=["-DSHIM_WRAP"],
+                  libs=[str(ctx.build_lib("san"))] + vlib.CODEC_LIBS + ["-Wl,--wrap=readdir,--wrap=readdir64,--wrap=closedir"])
+
+
+def run_harness(ctx, exe, lines, what, timeout=600):
+    """a sanitizer abort, a signal and a timeout of the real code are results (reported with the input), not crashes of the check"""
+    try:
+        r = vlib.sh([str(exe)], input="\n".join(lines) + "\n", env=ctx.san_env(), timeout=timeout)
+    except subprocess.TimeoutExpired as e:
+        done = len((e.stdout or b"").splitlines()) if e.stdout else 0
+        return None, {"rc": "timeout after %ds" % timeout, "stderr": "", "answered": done, "of": len(lines), "what": what}
+    out = r.stdout.splitlines()
+    if r.returncode != 0 or len(out) != len(lines):
+        return None, {"rc": r.returncode, "stderr": r.stderr[-3000:], "answered": len(out), "of": len(lines), "what": what}
+    for l, o in zip(lines, out):
+        if o.startswith("bad-op"):
+            raise vlib.CheckFailure("harness rejected an operation the check generated (%s): %s" % (what, l[:200]))
+    return out, None
+
+
+def unit_part(ctx, unit, harness, counters, hist):
+    """the pieces of the scan the order independence now rests on, each compared function by function with the real code:
+    compare_names, read_names (real native iterator under the shim), insert_sorted, fstree_sort_files"""
+    r = ctx.rng
+    u = {"cmp_pairs": 0, "cmp_equal_prefix_ge16": 0, "readnames_dirs": 0, "readnames_runs": 0, "readnames_max": 0, "readnames_permuted": 0,
+         "isort_lists": 0, "isort_max": 0, "sortfile_cases": 0, "sortfile_rules": 0, "name_len_max": 0}
+
+    # (a) compare_names
+    fam = long_names(r, 120)
+    pairs = []
+    for _ in range(900):
+        a, b = r.choice(fam), r.choice(fam)
+        pairs.append((a, b))
+    for a in fam[:60]:
+        pairs += [(a, a), (a, a[:-1] or b"x"), (a[:-1] or b"x", a), (a, a + b"\x01") if len(a) < NAME_MAX else (a, a)]
+    for _ in range(200):
+        pairs.append((r.choice(NAME_POOL), r.choice(NAME_POOL)))
+    for p in DIFF_POS:                          # directed: equal up to byte p, then low byte against high byte
+        base = bytes(r.choice(BASE_ALPHA) for _ in range(NAME_MAX))
+        for lo, hi in ((0x7f, 0x80), (0x01, 0xff), (0x61, 0xe4), (0x2e, 0xc3)):
+            x, y = base[:p] + bytes([lo]) + base[p + 1:], base[:p] + bytes([hi]) + base[p + 1:]
+            pairs += [(x, y), (y, x), (x[:p], x), (x, x[:p])] if p > 0 else [(x, y), (y, x)]
+    pairs = [(a, b) for a, b in pairs if a and b]
+    lines = ["cmp %s %s" % (tok(a), tok(b)) for a, b in pairs]
+    out, crash = run_harness(ctx, unit, lines, "cmp")
+    if crash:
+        ctx.violation("crash:unit:cmp", "unit harness (compare_names) aborted: rc=%s" % crash["rc"], crash)
+    else:
+        m = model(ctx, lines)
+        for (a, b), real, mo in szip(pairs, out, m):
+            u["cmp_pairs"] += 1
+            counters["evaluations"] += 1
+            cp = os.path.commonprefix([a, b])
+            u["cmp_equal_prefix_ge16"] += 1 if len(cp) >= 16 and a != b else 0
+            u["name_len_max"] = max(u["name_len_max"], len(a), len(b))
+            spec = "-1" if a < b else ("1" if a > b else "0")          # strcmp on unsigned bytes = Python's bytes order
+            msign, mlt = mo.split()
+            if (msign == "-1") != (mlt == "1"):
+                raise vlib.CheckFailure("model: strcmpC and nameLt disagree on %s %s" % (tok(a), tok(b)))
+            if real != msign:
+                counters["mismatch"] += 1
+                if counters["unit_bad"] < 4:
+                    counters["unit_bad"] += 1
+                    ctx.violation("corr:cmp:%s" % vlib.sha(tok(a) + tok(b))[:10],
+                                  "compare_names (dir_unix.c) returned sign %s, strcmp on unsigned bytes (model %s, reference %s) for two names "
+                                  "with a common prefix of %d bytes" % (real, msign, spec, len(cp)),
+                                  {"level": "unit", "op": "cmp", "a": tok(a), "b": tok(b), "real": real, "model": msign, "spec": spec},
+                                  found_input=False)
+            elif msign != spec:
+                raise vlib.CheckFailure("model and real strcmp agree (%s) but differ from the reference order (%s)" % (msign, spec))
+
+    # (b) read_names: the real native iterator over real directories, entries served by the shim in different orders
+    sizes = [0, 1, 2, 3, 15, 16, 17, 100, 127, 128, 129, 255, 256, 257, 1023, 1024, 1025, 2000, 4097]
+    if not ctx.quick():
+        sizes += [511, 512, 513, 2047, 2048, 2049, 4096, 5000, 8193]
+    for si, n in enumerate(sizes):
+        d = (str(ctx.scratch / ("names%d" % si))).encode()
+        os.mkdir(d)
+        # (the model sorts by insertion: beyond 2000 entries short names keep that affordable)
+        names = long_names(r, n, 24 if n > 2000 else (NAME_MAX if si % 3 != 2 else r.choice([12, 40, NAME_MAX])))
+        for nm in names:
+            os.close(os.open(d + b"/" + nm, os.O_WRONLY | os.O_CREAT | os.O_EXCL, 0o644))
+        if sorted(os.listdir(d)) != sorted(names):
+            raise vlib.CheckFailure("could not create the requested names in %s" % d)
+        orders = unit_orders(r, 4 if ctx.quick() else 6)
+        lines = ["readnames %s %s" % (o, tok(d)) for o in orders]
+        out, crash = run_harness(ctx, unit, lines, "readnames")
+        if crash:
+            ctx.violation("crash:unit:readnames:%d" % n, "native iterator aborted on a directory of %d entries: rc=%s" % (n, crash["rc"]),
+                          dict(crash, names=[tok(x) for x in names[:50]], orders=orders))
+            shutil.rmtree(d, ignore_errors=True)
+            continue
+        st = os.lstat(d)
+        served, mlines = [], []
+        for o, line in szip(orders, out):
+            body, _, log = line.partition(" @@ ")
+            lo = parse_log(log)
+            logged = lo.get((st.st_dev, st.st_ino))
+            if logged is None or len(lo) != 1 or sorted(logged) != sorted(names + [b".", b".."]):
+                raise vlib.CheckFailure("readdir shim not in effect for the native iterator: %d entries created, log has %s"
+                                        % (n, "no entry for the directory" if logged is None else "%d names" % len(logged)))
+            if o == "sorted" and logged != sorted(logged):
+                raise vlib.CheckFailure("readdir shim: `sorted` requested, something else served")
+            if logged != sorted(logged):
+                u["readnames_permuted"] += 1
+            served.append(body)
+            mlines.append("readnames 1 " + " ".join(tok(x) for x in logged))
+            u["readnames_runs"] += 1
+            counters["evaluations"] += 1
+        m = model(ctx, mlines)
+        u["readnames_dirs"] += 1
+        u["readnames_max"] = max(u["readnames_max"], n)
+        u["name_len_max"] = max([u["name_len_max"]] + [len(x) for x in names])
+        spec = " ".join(["ok"] + [tok(x) for x in sorted(names + [b".", b".."])])
+        impl_same = all(x == served[0] for x in served)
+        model_ok = all(("ok " + mo if mo else "ok") == x for mo, x in szip(m, served))
+        if any(("ok " + mo if mo else "ok") != spec for mo in m):
+            raise vlib.CheckFailure("model read_names does not return the names in strcmp order (directory of %d)" % n)
+        if not (impl_same and model_ok):
+            replay = {"level": "unit", "op": "readnames", "names": [tok(x) for x in names], "orders": orders,
+                      "served_first_differences": [x[:400] for x in served][:4], "expected": spec[:400]}
+            if counters["unit_bad"] < 4:
+                counters["unit_bad"] += 1
+                if not impl_same:
+                    a = next(i for i, x in enumerate(served) if x != served[0])
+                    ctx.violation("order:readnames:%d:%s" % (n, vlib.sha(json.dumps(replay, sort_keys=True))[:10]),
+                                  "the native iterator serves a directory of %d entries in an order that depends on the readdir order "
+                                  "(orders %s vs %s)" % (n, orders[0], orders[a]), replay)
+                else:
+                    counters["mismatch"] += 1
+                    ctx.violation("corr:readnames:%d:%s" % (n, vlib.sha(json.dumps(replay, sort_keys=True))[:10]),
+                                  "the native iterator serves a directory of %d entries in the same order for all readdir orders tried, but "
+                                  "not in strcmp order (model of read_names)" % n, replay, found_input=False)
+        shutil.rmtree(d, ignore_errors=True)
+    if u["readnames_permuted"] * 2 < u["readnames_runs"] - len(sizes):
+        raise vlib.CheckFailure("readdir shim: too few non-sorted enumerations served (%d of %d runs)" % (u["readnames_permuted"], u["readnames_runs"]))
+
+    # (c) insert_sorted through fstree_add_generic
+    lines, lists = [], []
+    for n in [0, 1, 2, 3, 5, 17, 40, 130, 300] + ([1000] if not ctx.quick() else [600]):
+        names = long_names(r, n, r.choice([NAME_MAX, NAME_MAX, 30]))
+        if n >= 5:
+            names = names[:n - 3] + r.sample(NAME_POOL, 3)
+            names = list(dict.fromkeys(names))
+        for k in range(2):
+            perm = list(names)
+            r.shuffle(perm)
+            if k == 1:
+                perm = sorted(perm, reverse=True)
+            lists.append(perm)
+            lines.append("isort " + " ".join(tok(x) for x in perm))
+    out, crash = run_harness(ctx, harness, lines, "isort")
+    if crash:
+        ctx.violation("crash:unit:isort", "harness (insert_sorted) aborted: rc=%s" % crash["rc"], crash)
+    else:
+        m = model(ctx, lines)
+        for perm, real, mo in szip(lists, out, m):
+            u["isort_lists"] += 1
+            u["isort_max"] = max(u["isort_max"], len(perm))
+            counters["evaluations"] += 1
+            spec = " ".join(tok(x) for x in sorted(perm))
+            real_names = real[3:] if real.startswith("ok ") else ("" if real == "ok" else real)
+            if mo != spec:
+                raise vlib.CheckFailure("model insert_sorted does not sort %d names" % len(perm))
+            if real_names != mo and counters["unit_bad"] < 4:
+                counters["unit_bad"] += 1
+                ctx.violation("order:isort:%s" % vlib.sha(" ".join(tok(x) for x in perm))[:10],
+                              "fstree_add_generic/insert_sorted left the %d children of a directory in an order that is not the strcmp order "
+                              "(so it depends on the insertion order)" % len(perm),
+                              {"level": "unit", "op": "isort", "inserted": [tok(x) for x in perm], "real": real[:600], "expected": spec[:600]})
+
+    # (d) fstree_sort_files
+    for ci in range(6 if ctx.quick() else 40):
+        paths, rules, text = gen_sortfile(r, None)
+        sf = ctx.scratch / ("sortfile%d.txt" % ci)
+        sf.write_bytes(text)
+        line = "sortfiles %s %d %s" % (tok(str(sf).encode()), len(paths), " ".join(tok(x) for x in paths))
+        out, crash = run_harness(ctx, harness, [line], "sortfiles")
+        if crash:
+            ctx.violation("crash:unit:sortfiles:%s" % vlib.sha(text)[:8], "harness (fstree_sort_files) aborted: rc=%s" % crash["rc"],
+                          dict(crash, sortfile=text.decode("latin1"), paths=[tok(x) for x in paths]))
+            continue
+        f = out[0].split()
+        if f[:2] != ["ok", "pre"] or "post" not in f:
+            raise vlib.CheckFailure("sortfiles: the generated sort file was rejected by the real parser: %s / %r" % (out[0][:200], text[:300]))
+        pre, post = f[2:f.index("post")], f[f.index("post") + 1:]
+        expect_pre = [tok(x) for x in sorted(paths, key=lambda q: q.split(b"/"))]
+        if pre != expect_pre:
+            raise vlib.CheckFailure("sortfiles: file list before sorting is not the DFS order of the paths")
+        mo = model_sortfiles(ctx, rules, pre)
+        u["sortfile_cases"] += 1
+        u["sortfile_rules"] += len(rules)
+        counters["evaluations"] += 1
+        if ["%s:%d" % x for x in mo] != post and counters["unit_bad"] < 4:
+            counters["unit_bad"] += 1
+            counters["mismatch"] += 1
+            ctx.violation("corr:sortfiles:%s" % vlib.sha(text)[:10], "fstree_sort_files orders/flags the file list differently from the model",
+                          {"level": "unit", "op": "sortfiles", "sortfile": text.decode("latin1"), "paths": [tok(x) for x in paths],
+                           "real": post[:200], "model": ["%s:%d" % x for x in mo][:200]}, found_input=False)
+    hist["unit"] = u
+    for k in ("cmp_pairs", "cmp_equal_prefix_ge16", "readnames_runs", "readnames_permuted", "isort_lists", "sortfile_cases"):
+        if u[k] == 0 and not ctx.violations:
+            raise vlib.CheckFailure("unit part `%s` evaluated nothing" % k)
+
+
+def direct_part(ctx, harness, counters, hist):
+    """fstree_add_generic / fstree_post_process called directly (no pack-file parser in between): the argument checks
+    (EINVAL, ERANGE), the nesting limit of mknode, and hard links that point at files, at other links (chains, cycles), at
+    directories or at nothing, queued in different orders"""
+    r = ctx.rng
+    dp = {"ops": 0, "nesting": 0, "range": 0, "link_sets": 0, "flat_sets": 0, "err": 0, "orders_per_set": 3}
+    hist["direct"] = dp
+
+    def ent(kind, path, mode, uid=0, gid=0, mtime=0, rdev=0, extra=None):
+        return [kind, tok(path), str(mode), str(uid), str(gid), str(mtime), str(rdev), otok(extra)]
+
+    def op(what, ents, d=(0, 0, 0, 0o755)):
+        return "direct %s %d %d %d %d %d %s" % (what, d[0], d[1], d[2], d[3], len(ents), " ".join(" ".join(e) for e in ents))
+
+    lines, groups = [], []          # groups: (first line index, number of lines, all-flat?) for the link sets
+    limit = 4096                                     # SQFS_MAX_DIR_NESTING; the model takes it from the header
+    deep = lambda k: b"/".join([b"a"] * k)
+    lines += [op("count", [ent("A", deep(limit), 0o40755)]), op("count", [ent("A", deep(limit + 1), 0o40755)]),
+              op("count", [ent("A", deep(limit + 2), 0o100644, extra=b"in")])]
+    dp["nesting"] += 3
+    if not ctx.quick():
+        for depth in (limit - 1, limit, limit + 1, limit + 2):
+            p = deep(depth)
+            lines += [op("count", [ent("A", p, 0o100644, extra=b"in")]),
+                      op("count", [ent("A", deep(depth - 1), 0o40755), ent("A", p, 0o40700)]),
+                      op("count", [ent("A", b"x", 0o100644), ent("L", p, 0o120777, extra=b"x")])]
+            dp["nesting"] += 3
+    for v in (2 ** 32 - 1, 2 ** 32, 2 ** 40 + 5):
+        lines += [op("full", [ent("A", b"u", 0o100644, uid=v)]), op("full", [ent("A", b"g", 0o40755, gid=v)]),
+                  op("full", [ent("A", b"c", 0o20644, rdev=v)]), op("full", [ent("A", b"b", 0o60644, rdev=v)]),
+                  op("full", [ent("A", b"f", 0o100644, rdev=v)]), op("full", [ent("A", b"t", 0o100644), ent("L", b"h", 0o60644, rdev=v, extra=b"t")]),
+                  op("full", [ent("A", b"d/e", 0o10644, uid=v)])]
+        dp["range"] += 7
+    lines += [op("full", [ent("A", b"l", 0o120777)]), op("full", [ent("A", b"l", 0o120777, extra=b"")]),
+              op("full", [ent("A", b"l", 0o120777, extra=b"tgt")]), op("full", [ent("L", b"l", 0o120777)]),
+              op("full", [ent("A", b"", 0o40700, uid=7)]), op("full", [ent("A", b"", 0o100600)])]
+    # directed link shapes, each queued in every order: a chain ending in a file, a chain ending nowhere, a self loop, a
+    # two-cycle, and a cycle that does NOT contain the link being resolved (only `max_hops` ends that one)
+    fileF = ent("A", b"f", 0o100644, extra=b"in")
+    for shape in ([(b"a", b"b"), (b"b", b"c"), (b"c", b"f")], [(b"a", b"b"), (b"b", b"nowhere")], [(b"a", b"a")],
+                  [(b"a", b"b"), (b"b", b"a")], [(b"a", b"b"), (b"b", b"c"), (b"c", b"b")],
+                  [(b"a", b"b"), (b"b", b"c"), (b"c", b"d"), (b"d", b"c"), (b"e", b"f")]):
+        ls = [ent("L", p, 0o120777, extra=t) for p, t in shape]
+        perms = [ls, list(reversed(ls))] + ([ls[1:] + ls[:1]] if len(ls) > 2 else [])
+        for pm in perms:
+            lines.append(op("full", [fileF] + pm))
+        dp["directed_shapes"] = dp.get("directed_shapes", 0) + len(perms)
+    for si in range(30 if ctx.quick() else 300):
+        dirs = [b""] + [r.choice([b"d", b"e", b"d/s", b"zz"]) for _ in range(r.randint(0, 2))]
+        files, base = [], []
+        for d in sorted(set(dirs)):
+            if d and r.random() < 0.7:
+                base.append(ent("A", d, 0o40755, mtime=5))
+        for i in range(r.randint(1, 6)):
+            d = r.choice(dirs)
+            p = (d + b"/" if d else b"") + r.choice([b"f", b"a", b"m", b"\xff", b"0"]) + b"%d" % i
+            files.append(p)
+            base.append(ent("A", p, r.choice([0o100644, 0o100644, 0o10600, 0o120777, 0o20600]), extra=b"x" if r.random() < 0.8 else None, rdev=r.randint(0, 500)))
+        kind = r.choice(["flat", "flat", "flat", "mixed", "mixed", "cycle"])
+        links, names = [], []
+        for i in range(r.randint(1, 7)):
+            d = r.choice(dirs)
+            p = (d + b"/" if d else b"") + r.choice([b"l", b"z", b"A", b"\x01"]) + b"%d" % i
+            if kind == "flat" or not names or r.random() < 0.5:
+                tgt = r.choice(files)
+            elif kind == "cycle" and r.random() < 0.5:
+                tgt = r.choice(names + [p])
+            else:
+                tgt = r.choice(names + [b"missing", r.choice(dirs) or b"d", b"d/none"])
+            names.append(p)
+            links.append(ent("L", p, 0o120777, uid=i, extra=tgt))
+        # a symlink without target (0o120777 with extra None) makes the whole thing fail: keep, it is a legal input
+        flat = kind == "flat" and all(e[7] != "-" or not stat.S_ISLNK(int(e[2])) for e in base)
+        first = len(lines)
+        for k in range(dp["orders_per_set"]):
+            perm = list(links)
+            r.shuffle(perm)
+            if k == 0:
+                ents = base + perm
+            elif k == 1:
+                ents = base + list(reversed(perm))
+            else:                                           # links queued before / between the files they point to
+                ents = list(base)
+                for l in perm:
+                    ents.insert(r.randint(0, len(ents)), l)
+                # parents must still come first for explicit directories: keep `dir` entries in front
+                ents.sort(key=lambda e: 0 if (e[0] == "A" and stat.S_ISDIR(int(e[2]))) else 1)
+            lines.append(op("full", ents))
+        groups.append((first, dp["orders_per_set"], flat))
+        dp["link_sets"] += 1
+        dp["flat_sets"] += 1 if flat else 0
+    out, crash = run_harness(ctx, harness, lines, "direct", timeout=300)
+    if crash:
+        ctx.violation("crash:direct", "fstree_add_generic / fstree_post_process aborted (rc=%s) after %d of %d operations: %s"
+                      % (crash["rc"], crash["answered"], crash["of"], crash["stderr"][-300:]),
+                      dict(crash, level="direct", next_op=lines[min(crash["answered"], len(lines) - 1)][:2000]))
+        return
+    m = model(ctx, lines)
+    bad = 0
+    for i, (l, real, mo) in enumerate(szip(lines, out, m)):
+        dp["ops"] += 1
+        dp["err"] += 1 if real == "err" else 0
+        counters["evaluations"] += 1
+        if real != mo:
+            bad += 1
+            counters["mismatch"] += 1
+            if bad <= 3:
+                ctx.violation("corr:direct:%s" % vlib.sha(l)[:10], "fstree_add_generic/fstree_post_process and the model disagree (real %s, model %s)"
+                              % (real[:60], mo[:60]), {"level": "direct", "op": l[:20000], "real": real[:3000], "model": mo[:3000]}, found_input=False)
+    for first, n, flat in groups:
+        res = out[first:first + n]
+        if flat and any(x != res[0] for x in res) and bad <= 3:
+            bad += 1
+            ctx.violation("order:links:%s" % vlib.sha(lines[first])[:10], "fstree_post_process gives different results for different orders of the "
+                          "same hard links (all pointing at existing non-directories)", {"level": "direct", "ops": [x[:20000] for x in lines[first:first + n]],
+                                                                                          "real": [x[:3000] for x in res]})
+    hist["direct"] = dp
+    if dp["ops"] < 100 or dp["flat_sets"] < 5 or dp["err"] == 0 or dp["err"] == dp["ops"]:
+        raise vlib.CheckFailure("direct part starved: %s" % dp)
+
+
+def deep_part(ctx, harness, counters, hist):
+    """the nesting limit of the recursive iterator (dir_rec.c: SQFS_MAX_DIR_NESTING): a chain of directories deeper than any
+    path name can express, built and inspected through directory file descriptors, scanned with directories filtered out
+    (so that fstree.c's own limit does not get to see them)"""
+    limit = None
+    for l in open(str(vlib.LEAN / "Sqfs" / "Generated" / "Consts.lean")):
+        if l.startswith("def maxDirNesting"):
+            limit = int(l.split(":=")[1])
+    if limit is None:
+        raise vlib.CheckFailure("maxDirNesting missing from the generated constants")
+    dp = {"limit": limit, "cases": 0, "err": 0, "ok": 0}
+    hist["deep"] = dp
+    lines, mlines = [], []
+    roots = []
+    for ci, depth in enumerate((limit, limit + 1) if ctx.quick() else (limit - 1, limit, limit + 1)):
+        root = str(ctx.scratch / ("deep%d" % ci))
+        os.mkdir(root)
+        roots.append(root)
+        fd = os.open(root, os.O_RDONLY | os.O_DIRECTORY)
+        rootdev = os.fstat(fd).st_dev
+        levels = []                                        # per level: (dir key, stat of d or None, stat of f)
+        for k in range(depth + 1):
+            f = os.open("f", os.O_WRONLY | os.O_CREAT | os.O_EXCL, 0o644, dir_fd=fd)
+            os.close(f)
+            sf = os.stat("f", dir_fd=fd, follow_symlinks=False)
+            sd = None
+            if k < depth:
+                os.mkdir("d", 0o755, dir_fd=fd)
+                sd = os.stat("d", dir_fd=fd, follow_symlinks=False)
+            st = os.fstat(fd)
+            levels.append(((st.st_dev, st.st_ino), sd, sf))
+            if k < depth:
+                nfd = os.open("d", os.O_RDONLY | os.O_DIRECTORY, dir_fd=fd)
+                os.close(fd)
+                fd = nfd
+        os.close(fd)
+        flags = DEFAULT_FLAGS | F_NO_DIR | F_NO_HL
+        for order in (["reverse"] if ctx.quick() else ["sorted", "reverse"]):
+            lines.append(("packdir %s %s 0 0 0 %d %d 0 0 0" % (order, tok(root.encode()), 0o755, flags), levels, rootdev, flags))
+    out, crash = run_harness(ctx, harness, [l[0] for l in lines], "deep")
+    for root in roots:
+        vlib.sh(["rm", "-rf", root])
+    if crash:
+        ctx.violation("crash:deep", "real scan path aborted on a directory chain around the nesting limit: rc=%s %s" % (crash["rc"], crash["stderr"][-300:]),
+                      dict(crash, level="deep"))
+        return
+    for (line, levels, rootdev, flags), o in szip(lines, out):
+        dump, _, log = o.partition(" @@ ")
+        lo = parse_log(log)
+
+        def ent(nm, st):
+            if st is None:
+                return [tok(nm), str(0o40755), "0", "0", "0", str(rootdev), "1", "0", "-"]
+            return [tok(nm), str(st.st_mode), str(st.st_uid), str(st.st_gid), str(int(st.st_mtime)), str(st.st_dev), str(st.st_ino), "0", "-"]
+
+        head, tail = [], []                      # the forest is one chain: tokens before / after the nested directory
+        for key, sd, sf in levels:
+            names = lo.get(key)
+            if names is None:
+                names = [b".", b"..", b"d", b"f"] if sd is not None else [b".", b"..", b"f"]
+            head.append(str(len(names)))
+            after = []
+            cur = head
+            for nm in names:
+                if nm == b"d":
+                    head += ent(nm, sd)
+                    cur = after
+                else:
+                    cur += ent(nm, sf if nm == b"f" else None) + ["0"]
+            tail.append(after)
+        toks = head + [x for a in reversed(tail) for x in a]
+        mlines.append("run 1 0 0 0 %d 1 G - %d 0 0 0 0 - - %d %s" % (0o755, flags, rootdev, " ".join(toks)))
+        if levels[0][0] not in lo:
+            raise vlib.CheckFailure("readdir shim not in effect in the deep-chain case")
+    m = model(ctx, mlines)
+    for (line, levels, _, _), o, mo in szip(lines, out, m):
+        dump = o.partition(" @@ ")[0]
+        dp["cases"] += 1
+        dp["err" if dump == "err" else "ok"] += 1
+        counters["evaluations"] += 1
+        if dump != mo:
+            counters["mismatch"] += 1
+            ctx.violation("corr:deep:%d" % (len(levels) - 1), "a chain of %d nested directories (limit %d), directories filtered out: real scan %s, model %s"
+                          % (len(levels) - 1, limit, dump[:80], mo[:80]),
+                          {"level": "deep", "depth": len(levels) - 1, "harness_line": line, "real": dump[:2000], "model": mo[:2000]}, found_input=False)
+    hist["deep"] = dp
+    if dp["err"] == 0 or dp["ok"] == 0:
+        if not ctx.violations:
+            raise vlib.CheckFailure("deep-chain part does not straddle the nesting limit: %s" % dp)
+
+
+SORT_FLAGS = {"dont_fragment": 4, "dont_compress": 1, "dont_deduplicate": 8, "nosparse": 16}
+
+
+def gen_sortfile(r, files, safe_flags=False):
+    """(paths, rules, text): a set of file paths (given, or invented), the parsed rules for the model, the sort file"""
+    def comp():
+        while True:
+            c = bytes(r.choice(b"abcxyz019._-") for _ in range(r.randint(1, 6)))
+            if c not in (b".", b".."):              # (canonicalize_name would rewrite such a line of the sort file)
+                return c
+    if files is None:
+        dirs = [b""] + [comp() for _ in range(r.randint(0, 3))]
+        dirs += [r.choice(dirs[1:]) + b"/" + comp() for _ in range(r.randint(0, 2)) if len(dirs) > 1]
+        paths = set()
+        for _ in range(r.randint(3, 60)):
+            d = r.choice(dirs)
+            nm = comp() if r.random() < 0.85 else comp() + r.choice([b" x", b"[1]", b"*", b"\"q\"", b"\\b"])
+            paths.add((d + b"/" if d else b"") + nm)
+        # a path must not be a directory of another one
+        paths = [p for p in paths if not any(q.startswith(p + b"/") for q in paths)]
+    else:
+        paths = list(files)
+    rules, lines = [], [b"# sort file generated by tools/checks/c11.py", b""]
+    for _ in range(r.randint(1, 10)):
+        prio = r.choice([-100, -5, -1, 0, 1, 1, 2, 5, 7, 1000, -(2 ** 40)])
+        fl = [f for f in SORT_FLAGS if r.random() < 0.25 and not (safe_flags and f == "dont_fragment")]
+        kind = r.random()
+        target = r.choice(paths) if paths else b"none"
+        if kind < 0.45:
+            do_glob, path_glob, pat = False, False, (target if r.random() < 0.85 else target + b"x")
+        else:
+            do_glob, path_glob = True, r.random() < 0.5
+            base = target.split(b"/")
+            pat = r.choice([b"*", b"*/*", b"?*", base[-1][:1] + b"*", b"/".join(base[:-1] + [b"*"]), b"*" + base[-1][-1:], target,
+                            b"*/" + base[-1], base[0] + b"*"])
+            pat = bytes(c for c in pat if c not in b"[]\\\"")
+            if not pat:
+                pat = b"*"
+        words = [("glob" if path_glob else "glob_no_path")] if do_glob else []
+        words += fl
+        r.shuffle(words)
+        quoted = (b'"' in pat or b"\\" in pat or pat[:1] in b" \t" or pat[-1:] in b" \t") or r.random() < 0.4
+        name = (b'"' + pat.replace(b"\\", b"\\\\").replace(b'"', b'\\"') + b'"') if quoted else pat
+        line = b"%d " % prio + ((b"[" + ", ".join(words).encode() + b"] ") if words or r.random() < 0.1 else b"") + name
+        if r.random() < 0.2:
+            line = b"  " + line + b"  "
+        lines.append(line)
+        if r.random() < 0.15:
+            lines.append(b"# comment")
+        rules.append((prio, sum(SORT_FLAGS[f] for f in fl), do_glob, path_glob, pat))
+    return paths, rules, b"\n".join(lines) + b"\n"
+
+
+
 def run(ctx):
     atexit.register(umount_all)
     ok, problems = vlib.proof_gate(ctx, MODULE, REQUIRED)
@@ -924,8 +1678,9 @@ def run(ctx):
                       {"broken": problems, "theorems_file": "lean/Sqfs/Props/C11.lean"}, found_input=False)
     witness_gate(ctx)
     harness = build_harness(ctx)
+    unit = build_unit_harness(ctx)
     tools = build_tools(ctx)
-    counters = {"evaluations": 0, "d16": 0, "mismatch": 0, "tool_runs": 0, "other": 0, "harness_other": 0}
+    counters = {"evaluations": 0, "d16": 0, "mismatch": 0, "tool_runs": 0, "other": 0, "harness_other": 0, "unit_bad": 0}
     hist = {"trees": 0, "trees_with_multilink": 0, "packdir_cases": 0, "glob_cases": 0, "err_results": 0, "entries_total": 0,
             "max_dir": 0, "max_depth": 0, "mount_trees": 0, "trees_with_multilink_nonregular": 0, "glob_nofile_cases": 0,
             "tool_nofile_cases": 0, "type_subsets": {}}
@@ -952,6 +1707,17 @@ def run(ctx):
         if len(samples) < 6:
             dsc = case.describe(); dsc.pop("tree_spec", None)
             samples.append({"case": dsc, "order": res[-1][0], "impl": res[-1][1][:300]})
+
+    # 0. function-by-function: compare_names, read_names, insert_sorted, fstree_sort_files
+    t0 = time.time()
+    unit_part(ctx, unit, harness, counters, hist)
+    hist["unit"]["seconds"] = round(time.time() - t0, 1)
+    t0 = time.time()
+    direct_part(ctx, harness, counters, hist)
+    hist["direct"]["seconds"] = round(time.time() - t0, 1)
+    t0 = time.time()
+    deep_part(ctx, harness, counters, hist)
+    hist["deep"]["seconds"] = round(time.time() - t0, 1)
 
     # 0a. corpus of minimised past disagreements (each: tree spec + case + orders), harness level and tool level
     cdir = vlib.CORPUS / "C11"
@@ -1000,8 +1766,13 @@ def run(ctx):
 
     tool_hist = {"tool_cases": 0, "tool_cases_asan": 0, "tool_failed_packs": 0, "tool_packfile_cases": 0}
 
-    def one_tool(tree, facts, idx, use_san, nofile=None):
-        case, cmd = gen_tool_case(ctx, tree, idx, facts[0], nofile)
+    def one_tool(tree, facts, idx, use_san, nofile=None, force_packdir=False):
+        if force_packdir:
+            cmd = ["-q", "-f", "-b", str(BLK), "-j", "4", "-d", "mtime=0", "--pack-dir", tree.root.decode("utf-8", "surrogateescape")]
+            case = Case("packdir", tree, {"uid": 0, "gid": 0, "mtime": 0, "mode": 0o755}, DEFAULT_FLAGS, {"uid": 0, "gid": 0, "mtime": 0})
+            add_sort_and_xattr(ctx, case, cmd, idx, force=True)
+        else:
+            case, cmd = gen_tool_case(ctx, tree, idx, facts[0], nofile)
         orders = orders_for(ctx, n_orders)
         res, crash = run_tool_case(ctx, tools, case, cmd, orders, use_san)
         if crash:
@@ -1041,8 +1812,10 @@ def run(ctx):
             one(gen_packdir_case(ctx, tree), facts, "packdir")
             hist["packdir_cases"] += 1
         for k in range(2):
-            one(gen_glob_case(ctx, tree, 2 * t + k, facts[0]), facts, "glob")
+            gcase = gen_glob_case(ctx, tree, 2 * t + k, facts[0])
+            one(gcase, facts, "glob")
             hist["glob_cases"] += 1
+            hist["glob_hl_on"] = hist.get("glob_hl_on", 0) + (0 if gcase.glob["flags"] & F_NO_HL else 1)
         if facts[4]:
             # directed: -type filter without regular files over multiply-linked symlinks / fifos / devices / sockets
             hist["trees_with_multilink_nonregular"] += 1
@@ -1055,9 +1828,61 @@ def run(ctx):
                 hist["tool_nofile_cases"] += 1
         umount_all()
         shutil.rmtree(tree.root, ignore_errors=True)
+    # 2. big directories (more than 128 / 256 / 1024 entries), names sharing long prefixes, link groups inside them
+    t0 = time.time()
+    big_sizes = ([ctx.rng.choice([129, 131, 200]), ctx.rng.choice([257, 300]), ctx.rng.choice([513, 600])] if ctx.quick()
+                 else [129, 200, 257, 513, 1025, 1400, 2000])
+    hist["big"] = {"trees": 0, "sizes": big_sizes, "harness_cases": 0, "tool_cases": 0}
+    save_orders = n_orders
+    n_orders = 4 if ctx.quick() else 6
+    for bi, n in enumerate(big_sizes):
+        tree = make_big_tree(ctx, bi, n, NAME_MAX if bi % 3 != 2 else 48)
+        facts = tree_facts(tree.root)
+        hist["big"]["trees"] += 1
+        hist["max_dir"] = max(hist["max_dir"], facts[2])
+        one(Case("packdir", tree, {"uid": 0, "gid": 0, "mtime": 0, "mode": 0o755}, DEFAULT_FLAGS | (F_KEEP_TIME if bi % 2 else 0),
+                 {"uid": 0, "gid": 0, "mtime": 0}), facts, "big-packdir")
+        hist["big"]["harness_cases"] += 1
+        if bi == 0 or not ctx.quick():
+            gc = gen_glob_case(ctx, tree, 800000 + bi, facts[0], nofile=None)
+            one(gc, facts, "big-glob")
+            hist["big"]["harness_cases"] += 1
+        if bi < 2 or not ctx.quick():
+            one_tool(tree, facts, 900000 + bi, use_san=False, force_packdir=True)
+            hist["big"]["tool_cases"] += 1
+        shutil.rmtree(tree.root, ignore_errors=True)
+    n_orders = save_orders
+    hist["big"]["seconds"] = round(time.time() - t0, 1)
     hist.update(tool_hist)
+    hist.update(TOOL_EXTRA)
+    hist["shim"] = dict(SHIM)
+    hist["seconds_in"] = {k: round(v, 1) for k, v in TIMES.items()}
     hist["type_subsets"] = {"distinct": len(TYPE_HIST), "without_f": sum(v for k, v in TYPE_HIST.items() if "f" not in k and k != "(no -type)"),
                             "counts": dict(sorted(TYPE_HIST.items(), key=lambda z: -z[1])[:40])}
+
+    # an empty or starved part is a failure of the check infrastructure, never a pass
+    q = ctx.quick()
+    floors = [("harness evaluations", counters["evaluations"] - counters["tool_runs"], 1200 if q else 8000),
+              ("tool runs", counters["tool_runs"], 120 if q else 1000),
+              ("tool packs that succeeded", counters["tool_runs"] - tool_hist["tool_failed_packs"], 60 if q else 500),
+              ("harness results that are not `err`", counters["evaluations"] - counters["tool_runs"] - hist["err_results"], 900 if q else 6000),
+              ("distinct non-trivial results", len(distinct), 150 if q else 1000),
+              ("child lists monitored", counters.get("monitor_lists", 0), 500 if q else 4000),
+              ("trees with a multiply-linked file", hist["trees_with_multilink"], 10 if q else 80),
+              ("glob cases with hard-link detection on", hist.get("glob_hl_on", 0), 20 if q else 150),
+              ("trees with a mount point inside", hist["mount_trees"], 1),
+              ("big directories scanned", hist["big"]["harness_cases"], 3),
+              ("tool cases with a sort file", TOOL_EXTRA["sortfile_cases"], 2),
+              ("tool cases with an xattr file", TOOL_EXTRA["xattrfile_cases"], 2),
+              ("directories served in a non-sorted order by the shim", SHIM["dirs_permuted"], 1000 if q else 8000),
+              ("plain scans in which every directory had to go through the shim", SHIM["cases_all_read_required"], 100 if q else 800),
+              ("corpus entries", ncorpus, 7)]
+    starved = ["%s: %d < %d" % (n, v, f) for n, v, f in floors if v < f]
+    if SHIM["root_not_read"]:
+        starved.append("the scanned directory itself was read without going through the readdir shim in %d runs" % SHIM["root_not_read"])
+    hist["floors"] = {n: [v, f] for n, v, f in floors}
+    if starved and not ctx.violations:
+        raise vlib.CheckFailure("coverage floor not reached (the check would pass without having looked): " + "; ".join(starved))
 
     ctx.cov.update({
         "evaluations": counters["evaluations"],
@@ -1083,11 +1908,98 @@ def run(ctx):
         assumptions=["names inside one directory are pairwise different (WFList) — guaranteed by the kernel"])
 
 
+def replay_unit(ctx, r):
+    """re-run a recorded function-level disagreement (compare_names / read_names / insert_sorted / fstree_sort_files)"""
+    op = r.get("op")
+    if op == "cmp":
+        unit = build_unit_harness(ctx)
+        line = "cmp %s %s" % (r["a"], r["b"])
+        out, crash = run_harness(ctx, unit, [line], "cmp")
+        mo = model(ctx, [line])[0].split()[0]
+        print("compare_names: real %s, model %s" % (out and out[0], mo))
+        if crash or out[0] != mo:
+            print("REPRODUCED: compare_names differs from strcmp on unsigned bytes")
+            return 1
+    elif op == "readnames":
+        unit = build_unit_harness(ctx)
+        d = (str(ctx.scratch / "replay_names")).encode()
+        os.mkdir(d)
+        names = [bytes.fromhex(x) for x in r["names"]]
+        for nm in names:
+            os.close(os.open(d + b"/" + nm, os.O_WRONLY | os.O_CREAT | os.O_EXCL, 0o644))
+        lines = ["readnames %s %s" % (o, tok(d)) for o in r["orders"]]
+        out, crash = run_harness(ctx, unit, lines, "readnames")
+        spec = " ".join(["ok"] + [tok(x) for x in sorted(names + [b".", b".."])])
+        if crash:
+            print("REPRODUCED: native iterator aborted:", crash)
+            return 1
+        bad = 0
+        for o, line in szip(r["orders"], out):
+            body = line.partition(" @@ ")[0]
+            print("order %-18s %s" % (o, "strcmp order" if body == spec else "NOT in strcmp order"))
+            bad += body != spec
+        if bad:
+            print("REPRODUCED: the native iterator does not serve the names in strcmp order")
+            return 1
+    elif op == "isort":
+        harness = build_harness(ctx)
+        line = "isort " + " ".join(r["inserted"])
+        out, crash = run_harness(ctx, harness, [line], "isort")
+        mo = model(ctx, [line])[0]
+        if crash or (out[0][3:] if out[0].startswith("ok ") else "") != mo:
+            print("REPRODUCED: insert_sorted order differs from strcmp order")
+            return 1
+    elif op == "sortfiles":
+        harness = build_harness(ctx)
+        sf = ctx.scratch / "replay_sortfile.txt"
+        sf.write_bytes(r["sortfile"].encode("latin1"))
+        line = "sortfiles %s %d %s" % (tok(str(sf).encode()), len(r["paths"]), " ".join(r["paths"]))
+        out, crash = run_harness(ctx, harness, [line], "sortfiles")
+        print("real:", out and out[0][:600])
+        print("model (recorded):", r.get("model"))
+        f = out[0].split() if out else []
+        if crash or "post" not in f or f[f.index("post") + 1:][:200] != r.get("model"):
+            print("REPRODUCED: fstree_sort_files differs from the model")
+            return 1
+    else:
+        print(json.dumps(r, indent=1)[:3000])
+        print("unknown unit replay")
+        return 1
+    print("not reproduced: real code and model agree on the recorded input")
+    return 0
+
+
 def replay(ctx, path):
     """rebuild the recorded tree, re-run the recorded case under the recorded readdir orders against the current working tree"""
     atexit.register(umount_all)
     body = json.loads(open(path).read())
     r = body.get("replay", {})
+    if r.get("level") in ("unit", "direct", "deep"):
+        ctx.lean_build(["sqfsmodel"])
+        if r["level"] == "unit":
+            return replay_unit(ctx, r)
+        harness = build_harness(ctx)
+        if r["level"] == "deep":
+            counters = {"evaluations": 0, "mismatch": 0}
+            deep_part(ctx, harness, counters, {})
+            print("REPRODUCED: deep directory chain: real scan and model disagree" if ctx.violations
+                  else "not reproduced: real scan and model agree around the nesting limit")
+            return 1 if ctx.violations else 0
+        ops = r.get("ops") or [r.get("op") or r.get("next_op")]
+        out, crash = run_harness(ctx, harness, ops, "direct", timeout=300)
+        if crash:
+            print("REPRODUCED: real code aborted / timed out:", crash["rc"])
+            return 1
+        m = model(ctx, ops)
+        bad = 0
+        for o, real, mo in szip(ops, out, m):
+            print("real  %s\nmodel %s" % (real[:300], mo[:300]))
+            bad += real != mo
+        if bad or ("ops" in r and any(x != out[0] for x in out)):
+            print("REPRODUCED")
+            return 1
+        print("not reproduced: real code and model agree, and all orders give the same result")
+        return 0
     desc = r.get("case")
     if not desc or "tree_spec" not in desc:
         print(json.dumps(r, indent=1)[:4000])
@@ -1097,7 +2009,7 @@ def replay(ctx, path):
     case = Case.from_description(ctx, desc, tree, 0)
     facts = tree_facts(tree.root)
     orders = r.get("orders") or ([r["order"]] if "order" in r else ["sorted", "reverse"])
-    counters = {"evaluations": 0, "d16": 0, "mismatch": 0, "tool_runs": 0, "other": 0, "harness_other": 0}
+    counters = {"evaluations": 0, "d16": 0, "mismatch": 0, "tool_runs": 0, "other": 0, "harness_other": 0, "unit_bad": 0}
     ctx.lean_build(["sqfsmodel"])
     if r.get("level") == "tool" or "cmdline" in r:
         tools = build_tools(ctx)
@@ -1107,6 +2019,12 @@ def replay(ctx, path):
                 cmd[i + 1] = tree.root.decode("utf-8", "surrogateescape")
             if c == "-F":
                 cmd[i + 1] = case.packfile_path.decode()
+            if c in ("-S", "--sort-file") and getattr(case, "sort_text", None) is not None:
+                (ctx.scratch / "replay_sort.txt").write_bytes(case.sort_text.encode("latin1"))
+                cmd[i + 1] = str(ctx.scratch / "replay_sort.txt")
+            if c in ("-A", "--xattr-file") and getattr(case, "xattr_text", None) is not None:
+                (ctx.scratch / "replay_xattr.txt").write_bytes(case.xattr_text.encode("latin1") + b"\n")
+                cmd[i + 1] = str(ctx.scratch / "replay_xattr.txt")
         res, crash = run_tool_case(ctx, tools, case, cmd, orders, use_san=False)
         if crash:
             print("REPRODUCED: tool aborted:", crash)
@@ -1120,8 +2038,9 @@ def replay(ctx, path):
         if crash:
             print("REPRODUCED: real scan path aborted:", crash)
             return 1
+        need_unsorted(ctx, case, res)
         for x in res:
-            print("order %-16s impl=%s model(repaired)=%s model(pinned)=%s" % (x[0], vlib.sha(x[1])[:12], vlib.sha(x[3])[:12], vlib.sha(x[4])[:12]))
+            print("order %-16s impl=%s model=%s model(iterator without qsort)=%s" % (x[0], vlib.sha(x[1])[:12], vlib.sha(x[3])[:12], vlib.sha(x[4])[:12]))
         classify(ctx, case, res, facts, "replay", counters)
     umount_all()
     if ctx.violations or ctx.known_hits:
